@@ -241,4 +241,31 @@ theorem layoutAgrees_exp {s : MuxState} (inv : Inv s) (af : AcceptedFacts s) : L
     · simp only [expL, hx, st.frames, Bool.false_eq_true, if_false]; omega
     · intro ha; rw [st.notAnim] at ha; cases ha
 
+/-- what C14 says about the bytes `b` assembled from state `s` -/
+def RoundTrip (s : MuxState) (b : Bytes) : Prop :=
+  Webp.Spec.Riff.wellFormed b = .ok (expL s) ∧ LayoutAgrees s (expL s) ∧
+  Demux.parseWith true b = .ok (expD s) ∧ DemuxAgrees s (expD s) ∧
+  Parser.parse b = .ok (expP s) ∧ ParserAgrees (expD s) (expP s)
+
+theorem roundTrip_of_fits (s : MuxState) (inv : Inv s) (h : Accepted s) (hfit : Fits s) :
+    ∃ b, assemble s = .ok b ∧ RoundTrip s b := by
+  have af := accepted_facts h hfit
+  refine ⟨Webp.Proofs.MuxRiffWrap.riffWrap (serAll (topChunks s)), assemble_eq s af.valid af.size, ?_,
+    layoutAgrees_exp inv af, ?_, demuxAgrees_exp inv af, ?_, parserAgrees_exp inv af⟩
+  · cases hx : needsVP8X s with
+    | true => exact Webp.Proofs.MuxWalker.walker_ext s inv af hx
+    | false =>
+      obtain ⟨f, st⟩ := simpleState af.valid hx
+      exact simple_walker st (af.framesOK f (by rw [st.frames]; exact List.mem_cons_self)) af.size
+  · cases hx : needsVP8X s with
+    | true => exact Webp.Proofs.MuxDemuxFinal.demux_ext s inv af hx
+    | false =>
+      obtain ⟨f, st⟩ := simpleState af.valid hx
+      exact simple_demux st (af.framesOK f (by rw [st.frames]; exact List.mem_cons_self)) af.size
+  · cases hx : needsVP8X s with
+    | true => exact Webp.Proofs.MuxParserExt.parser_ext s inv af hx
+    | false =>
+      obtain ⟨f, st⟩ := simpleState af.valid hx
+      exact simple_parser st (af.framesOK f (by rw [st.frames]; exact List.mem_cons_self)) af.size
+
 end Webp.Proofs.MuxAgree
